@@ -265,12 +265,16 @@ def pack_dataclass(spec: ValueSpec) -> Optional[Expression]:
         if spec.builder.is_nailed:
             return f"{spec.expression}.{method_name}({flags})"
         else:
+            method_args = spec.expression
+            if not hasattr(spec.attrs, method_name):
+                # self-reference: the method is installed when the
+                # compilation in progress ends, so it is looked up by name
+                return f"{spec.cls_attrs_name}.{method_name}({method_args})"
             cls_alias = clean_id(type_name(spec.origin_type))
             method_name_alias = f"{cls_alias}_{method_name}"
             spec.builder.ensure_object_imported(
                 getattr(spec.attrs, method_name), method_name_alias
             )
-            method_args = spec.expression
             return f"{method_name_alias}({method_args})"
 
 
